@@ -1057,8 +1057,13 @@ rrul_fill_yly(echs_instant_t *restrict tgt, size_t nti, rrulsp_t rr)
 		}
 	}
 
-	y -= echs_shift_dvalue(rr->shift) > 0 ||
-		echs_shift_bday_p(rr->shift) && !echs_shift_neg_p(rr->shift);
+	if ((echs_shift_dvalue(rr->shift) > 0 ||
+	     echs_shift_bday_p(rr->shift) && !echs_shift_neg_p(rr->shift)) &&
+	    rr->inter <= y) {
+		/* go back one whole period, not just one year,
+		 * INTERVAL counts from the proto year */
+		y -= rr->inter;
+	}
 
 	/* fill up the array the hard way */
 	for (res = 0UL, tries = 64U; res < nti && --tries && y < 4095U;
@@ -1240,16 +1245,21 @@ rrul_fill_mly(echs_instant_t *restrict tgt, size_t nti, rrulsp_t rr)
 		tmp = echs_shift_dvalue(rr->shift) +
 			echs_shift_bvalue(rr->shift) * 7 / 5;
 
-		m -= tmp-- > 0;
-		m -= tmp / 30;
-		y -= m <= 0;
-		m += m > 0 ? 0 : 12;
-		m = m > 0 ? m : 1;
-		if (m > 12) {
-			/* a negative shift starts later, possibly in the next year */
-			y += (m - 1) / 12;
-			m = (m - 1) % 12 + 1;
+		/* months to start earlier (or later for a negative shift),
+		 * in whole periods, INTERVAL counts from the proto month */
+		long int back = (tmp > 0) + (tmp - 1) / 30;
+		long int mi = (long int)y * 12 + (m - 1);
+
+		if (back > 0) {
+			/* earlier is safe, round up */
+			back += (long int)rr->inter - 1;
 		}
+		back -= back % (long int)rr->inter;
+		if (back <= mi) {
+			mi -= back;
+		}
+		y = (unsigned int)(mi / 12);
+		m = (int)(mi % 12) + 1;
 	}
 
 	/* get m on track */
